@@ -33,7 +33,17 @@ const ERRNO_CALLS: [(&str, &[&str]); 8] = [
     ("renameat", &["EIO", "EXDEV"]),
     ("renameat2", &["EIO", "EXDEV"]),
 ];
-const TRACE_SET: &str = "openat,read,write,close,rename,renameat,renameat2,unlink,unlinkat";
+/// calls counted only when they touch a project path (strace -P): the dynamic loader and the
+/// runtime open, read and close files of their own on the main thread
+const TRACE_FILTERED: &str = "openat,read,write,close";
+/// calls counted wherever they point (nothing but txtpp's own code renames or unlinks; strace 6.1
+/// does not match the target of a plain rename(2) against -P, so a path filter would hide the
+/// final step of a staged write)
+const TRACE_UNFILTERED: &str = "rename,renameat,renameat2,unlink,unlinkat";
+
+fn unfiltered(call: &str) -> bool {
+    TRACE_UNFILTERED.split(',').any(|c| c == call)
+}
 /// concurrent traced runs per worker process (a run of the binary mostly sleeps in its poll timer)
 const LANES: usize = 6;
 
@@ -243,14 +253,20 @@ fn run_plain(l: &Lane, inv: &Inv) -> Option<i32> {
     }
 }
 
-/// Run under strace; `inject` = None records only. Returns (exit code, strace log).
-fn run_traced(l: &Lane, inv: &Inv, paths: &[PathBuf], inject: Option<&Point>) -> Option<(i32, String)> {
+/// Run under strace; `inject` = None records only. `filtered` selects the call family (see
+/// TRACE_FILTERED / TRACE_UNFILTERED). Returns (exit code, strace log).
+fn run_traced(l: &Lane, inv: &Inv, paths: &[PathBuf], inject: Option<&Point>, filtered: bool) -> Option<(i32, String)> {
     let log = l.dir.join("strace.log");
     let _ = std::fs::remove_file(&log);
     let mut c = std::process::Command::new(STRACE);
-    c.arg("-f").arg("-b").arg("execve").arg("-o").arg(&log).arg("-e").arg(format!("trace={TRACE_SET}"));
-    for p in paths {
-        c.arg("-P").arg(p);
+    c.arg("-f").arg("-b").arg("execve").arg("-o").arg(&log);
+    if filtered {
+        c.arg("-e").arg(format!("trace={TRACE_FILTERED}"));
+        for p in paths {
+            c.arg("-P").arg(p);
+        }
+    } else {
+        c.arg("-e").arg(format!("trace={TRACE_UNFILTERED}"));
     }
     if let Some(pt) = inject {
         let what = if pt.what == "KILL" {
@@ -437,7 +453,7 @@ pub fn run(case: &Case, ctx: &mut Ctx) -> CaseOutcome {
     // recorded fault-free run: where the fault points are
     l0.reset(&image);
     let paths0 = trace_paths(&l0.root, &image, &a);
-    let (rec_code, rec_log) = match run_traced(l0, &inv, &paths0, None) {
+    let (rec_code, rec_log) = match run_traced(l0, &inv, &paths0, None, true) {
         Some(x) => x,
         None => {
             ctx.stats.count("sys.strace_unavailable");
@@ -446,7 +462,16 @@ pub fn run(case: &Case, ctx: &mut Ctx) -> CaseOutcome {
     };
     let counts = count_calls(&rec_log);
     // the worker thread is the tracee with the most calls on project paths
-    let worker = counts.values().max_by_key(|m| m.values().sum::<usize>()).cloned().unwrap_or_default();
+    let mut worker = counts.values().max_by_key(|m| m.values().sum::<usize>()).cloned().unwrap_or_default();
+    l0.reset(&image);
+    if let Some((_, log2)) = run_traced(l0, &inv, &paths0, None, false) {
+        let c2 = count_calls(&log2);
+        if let Some(w2) = c2.values().max_by_key(|m| m.values().sum::<usize>()) {
+            for (k, v) in w2 {
+                worker.insert(k.clone(), *v);
+            }
+        }
+    }
     ctx.stats.count(&format!("sys.recorded_runs.{}", mode.name()));
     let mut points: Vec<Point> = vec![];
     let spec = case.params.get("points").cloned().unwrap_or_default();
@@ -523,7 +548,7 @@ pub fn run(case: &Case, ctx: &mut Ctx) -> CaseOutcome {
                     };
                     l.reset(image);
                     let paths = trace_paths(&l.root, image, a);
-                    let (code, log) = match run_traced(l, inv, &paths, Some(&pt)) {
+                    let (code, log) = match run_traced(l, inv, &paths, Some(&pt), !unfiltered(&pt.call)) {
                         Some(x) => x,
                         None => continue,
                     };
